@@ -621,6 +621,10 @@ func (g *fastGenerator) decodeFixed32(varName string, typeName string) {
 
 func (g *fastGenerator) decodeMessage(varName, buf string, message *protogen.Message) {
 
+	// the nesting budget handed down by the caller is spent: reject rather than recurse without bound
+	g.P("if options.RecursionLimit <= 0 {")
+	g.P(`return `, protoifacePkg.Ident("UnmarshalOutput"), "{NoUnkeyedLiterals: input.NoUnkeyedLiterals, Flags: input.Flags},", runtimePackage.Ident("ErrRecursionDepth"))
+	g.P("}")
 	g.P("if err := options.Unmarshal(", buf, ", ", varName, "); err != nil {")
 	g.P(`return `, protoifacePkg.Ident("UnmarshalOutput"), "{NoUnkeyedLiterals: input.NoUnkeyedLiterals, Flags: input.Flags},", `err`)
 	g.P(`}`)
